@@ -15,6 +15,7 @@ structure FileSum where
   persisted : List Nat  -- the persisted free list
   numPages : Nat
   txId : Nat
+  runs : List (Nat × Nat) := []   -- (first page, length) of every node run reached and of the free-list run
 
 structure ProtoSt where
   sys : Sys
@@ -23,6 +24,15 @@ structure ProtoSt where
   checked : Nat := 0
   maxNonFree : Nat := 0
   maxReq : Nat := 0
+  wBegin : Option TxFL := none   -- the open writer's private list as decided at ITS begin (release bound from the readers registered then)
+  numPages0 : Nat := 0
+  writerTx : Option Nat := none
+  extensions : Nat := 0          -- runs placed beyond the old page mark (each checked: no free run would have fitted)
+  placed : Nat := 0              -- commits whose placement was reproduced exactly by the model's first fit
+  placeUndecided : Nat := 0      -- commits where the order search ran out of fuel or pages were allocated and freed again
+  burnedCommits : Nat := 0
+  callsReplayed : Nat := 0
+  reused : Nat := 0              -- runs placed on released pages
 
 def parseNatList (s : String) : List Nat :=
   let inner := ((s.dropWhile (· == '[')).toString.takeWhile (· != ']')).toString
@@ -42,17 +52,56 @@ def parseFlState (s : String) : FL :=
     { free := free, pending := pend }
   | _ => {}
 
+/-- the `al,n=..,page=..` notes of one commit: every call of `TxFreelist::allocate`, in call order -/
+def parseAllocs (s : String) : List (Nat × Nat) :=
+  if s == "-" then [] else
+  (s.splitOn "|").filterMap (fun n =>
+    let f := n.splitOn ","
+    let get (k : String) : Nat := ((f.find? (·.startsWith (k ++ "="))).map (fun x => (x.drop (k.length + 1)).toString.toNat!)).getD 0
+    match f with
+    | "al" :: _ => some (get "n", get "page")
+    | _ => none)
+
+/-- replay every allocation call of the commit on the model's private list: first fit, else extend.
+returns the first call the model answers differently, or the final model state -/
+def replayAllocs (t : TxFL) : List (Nat × Nat) → Except String TxFL
+  | [] => .ok t
+  | (n, page) :: rest =>
+    let r := t.allocate n
+    if r.1 != page then .error s!"allocate({n}) returned page {page}; the model's first fit gives {r.1} (free={t.fl.free.take 16} mark={t.numPages})"
+    else replayAllocs r.2 rest
+
 def listDiff (a b : List Nat) : List Nat := a.filter (fun p => !b.contains p)
 
 def sortNat (l : List Nat) : List Nat := l.mergeSort (· ≤ ·)
 
+/- order search: is there an order of the observed runs in which the model's `TxFL.allocate` (first fit,
+else extend) places every one of them exactly where the real commit did?  The real order is such an
+order whenever the real allocator is the model's.  `none` = out of fuel (never an alarm). -/
+mutual
+partial def placeSearch (fuel : Nat) (t : TxFL) (rs : List (Nat × Nat)) : Nat × Option Bool :=
+  if rs.isEmpty then (fuel, some true) else
+  if fuel == 0 then (0, none) else
+  placeTry fuel t rs ((rs.filter (fun r => (t.allocate r.2).1 == r.1)).eraseDups)
+partial def placeTry (fuel : Nat) (t : TxFL) (rs : List (Nat × Nat)) (cs : List (Nat × Nat)) : Nat × Option Bool :=
+  match cs with
+  | [] => (fuel, some false)
+  | c :: rest =>
+    if fuel == 0 then (0, none) else
+    match placeSearch (fuel - 1) (t.allocate c.2).2 (rs.erase c) with
+    | (f, some true) => (f, some true)
+    | (_, none) => (0, none)
+    | (f, some false) => placeTry f t rs rest
+end
+
 /-- one committed write transaction observed through (file, in-memory free list).
 returns the new protocol state or a description of the disagreement -/
-def protoCommit (ps : ProtoSt) (fs : FileSum) (impl : FL) : Except String ProtoSt :=
+def protoCommit (ps : ProtoSt) (fs : FileSum) (impl : FL) (allocs : Option (List (Nat × Nat)) := none) : Except String ProtoSt :=
   let s := ps.sys
   let T := s.cur.txId + 1
   if fs.txId != T then .error s!"transaction id {fs.txId}, model expects {T}" else
-  let t := s.beginWriter
+  -- the release bound is decided when the writer BEGINS (readers registered then), not when it commits
+  let t := ps.wBegin.getD s.beginWriter
   let freed := listDiff s.cur.reach fs.reach
   let alloc := listDiff fs.reach s.cur.reach
   let implT := (impl.pending.find? (fun e => e.1 == T)).map (·.2) |>.getD []
@@ -76,12 +125,60 @@ def protoCommit (ps : ProtoSt) (fs : FileSum) (impl : FL) : Except String ProtoS
   else
     let sys' : Sys := { cur := { txId := T, reach := fs.reach }, shared := impl, readers := s.readers, numPages := fs.numPages }
     if !sys'.invB then .error s!"accounting invariant fails after transaction {T}" else
-    let runs := fs.numPages - s.numPages
-    .ok { ps with sys := sys', commitsSince := 0, checked := ps.checked + 1,
+    -- C10: the allocator itself.  The runs this commit wrote, with their lengths:
+    let newRuns := fs.runs.filter (fun r => !s.cur.reach.contains r.1)
+    if sortNat (expand newRuns) != sortNat alloc then
+      .error s!"the runs written by transaction {T} ({newRuns.take 6}) do not partition its new pages ({(sortNat alloc).take 12})"
+    else
+    -- (a) a run placed beyond the old page mark extends the file: first fit does that only when no run
+    -- of that length is free.  The transaction's private free set only shrinks while it runs, so a run
+    -- that is still free afterwards was free when the request was made.
+    let ext := newRuns.filter (fun r => s.numPages ≤ r.1)
+    match ext.find? (fun r => hasRun r.2 impl.free) with
+    | some r => .error s!"transaction {T} extended the file for a run of {r.2} page(s) at {r.1} although {r.2} consecutive free pages were available (free={impl.free.take 16})"
+    | none =>
+    -- (b) exact placement: some order of the requests makes the model's first fit put every run where
+    -- the real commit put it (only when every allocation is visible in the file: nothing burned)
+    -- (b0) with the allocation notes of the hook: every single call, in call order, against the model
+    let callDiff : Option String := match allocs with
+      | none => none
+      | some calls =>
+        match replayAllocs { t with numPages := s.numPages } calls with
+        | .error e => some e
+        | .ok t' =>
+          if t'.numPages != fs.numPages then some s!"after the {calls.length} allocation calls the model's page mark is {t'.numPages}, the header says {fs.numPages}"
+          else if sortNat (expand (calls.map (fun c => (c.2, c.1)))) != sortNat (alloc ++ burned) then
+            some s!"the allocation calls {calls.take 8} do not cover exactly the pages the transaction wrote or burned"
+          else if sortNat t'.fl.free != sortNat impl.free then some s!"after replaying the allocation calls the model's free set differs from the real one"
+          else none
+    if let some e := callDiff then .error e else
+    let (placed, undec, bad) :=
+      if allocs.isSome then (1, 0, false) else
+      if !burned.isEmpty then (0, 1, false) else
+      match (placeSearch 4000 { t with numPages := s.numPages } newRuns).2 with
+      | some true => (1, 0, false)
+      | some false => (0, 0, true)
+      | none => (0, 1, false)
+    if bad then
+      .error s!"no order of the requests {newRuns.map (·.2)} makes first fit place the runs at {newRuns.map (·.1)} (model free={t.fl.free.take 16} mark={s.numPages})"
+    else
+    let K := (newRuns.map (·.2)).foldl max 0
+    .ok { ps with sys := sys', commitsSince := 0, checked := ps.checked + 1, wBegin := none, writerTx := none,
                   maxNonFree := max ps.maxNonFree (fs.numPages - 2 - impl.free.length),
-                  maxReq := max ps.maxReq runs }
+                  maxReq := max ps.maxReq K,
+                  extensions := ps.extensions + ext.length, reused := ps.reused + (newRuns.length - ext.length),
+                  placed := ps.placed + placed, placeUndecided := ps.placeUndecided + undec,
+                  burnedCommits := ps.burnedCommits + (if burned.isEmpty then 0 else 1),
+                  callsReplayed := ps.callsReplayed + (allocs.map (·.length)).getD 0 }
 
 def protoInit (fs : FileSum) (impl : FL) : ProtoSt :=
-  { sys := { cur := { txId := fs.txId, reach := fs.reach }, shared := impl, readers := [], numPages := fs.numPages } }
+  { sys := { cur := { txId := fs.txId, reach := fs.reach }, shared := impl, readers := [], numPages := fs.numPages },
+    numPages0 := fs.numPages }
+
+/-- the history-level plateau (corollary of `C10.extension_implies_small` at every extension): the page
+mark never exceeds `max numPages₀ (K·(n+2)+1)`, `n` the largest number of non-free pages seen and `K` the
+longest run requested -/
+def ProtoSt.plateauOk (p : ProtoSt) : Bool :=
+  p.sys.numPages ≤ max p.numPages0 (p.maxReq * (p.maxNonFree + 2) + 1)
 
 end Driver
